@@ -20,7 +20,7 @@ import time
 
 ROOT = os.path.dirname(os.path.dirname(os.path.abspath(__file__)))
 TLA = os.path.join(ROOT, "tla")
-HARNESS = os.path.join(ROOT, "harness")
+HARNESS = os.environ.get("VERIF_HARNESS") or os.path.join(ROOT, "harness")
 WORK = os.path.join(ROOT, "work")
 REPLAYS = os.path.join(ROOT, "replays")
 EVIDENCE = os.path.join(ROOT, "evidence")
@@ -99,6 +99,8 @@ class Ctx:
         env.pop("RUSTFLAGS", None)  # .cargo/config.toml carries --cfg aranya_verif
         if extra_env:
             env.update(extra_env)
+        if os.environ.get("VERIF_TARGET_DIR"):
+            env["CARGO_TARGET_DIR"] = os.environ["VERIF_TARGET_DIR"]
         t = time.time()
         p = subprocess.run(
             ["cargo", "build", "--offline", "-q", "-p", "vh-" + engine],
@@ -124,6 +126,8 @@ class Ctx:
         os.makedirs(md, exist_ok=True)
         w = workers or self.tlc_workers
         jopts = ["-XX:+UseParallelGC", "-Xss1g"]
+        if not any(o.startswith("-Xmx") for o in (java_opts or [])):
+            jopts.append("-Xmx%s" % os.environ.get("VERIF_TLC_XMX", "8g"))
         if dfs:
             jopts.append("-Dtlc2.tool.queue.IStateQueue=StateDeque")
         if java_opts:
@@ -322,7 +326,12 @@ class Ctx:
         if self._known is None:
             self._known = []
             if os.path.exists(KNOWN):
-                self._known = json.load(open(KNOWN)).get("findings", [])
+                self._known = list(json.load(open(KNOWN)).get("findings", []))
+            d = os.path.join(ROOT, "known_findings.d")
+            if os.path.isdir(d):
+                for f in sorted(os.listdir(d)):
+                    if f.endswith(".json"):
+                        self._known += json.load(open(os.path.join(d, f))).get("findings", [])
         return self._known
 
     def violation(self, key, msg, replay_obj):
